@@ -368,6 +368,7 @@ impl Clone for CompiledLookahead {
 ''', label='trusted: derived Clone of CompiledLookahead is structural'),
         RawFile('spec.rs'),
         RawFile('../common/blen_lemmas.rs'),
+        RawFile('unique_lemmas.rs'),
         RawFile('lemmas.rs'),
         satisfies_lookahead,
         find_from,
